@@ -442,10 +442,11 @@ func c01Exec(t *testing.T, r *kit.Run) func(wProg) kit.Outcome {
 }
 
 func firstLine(s string) string {
-	if i := strings.Index(s, "\n"); i > 0 {
-		return s[:i]
+	// the first line names the panic; keep the head of the stack too, on one line
+	if len(s) > 1400 {
+		s = s[:1400]
 	}
-	return s
+	return strings.ReplaceAll(s, "\n", " | ")
 }
 
 func TestC01Numbering(t *testing.T) {
